@@ -4,6 +4,7 @@ import (
 	"go/ast"
 	"go/constant"
 	"go/types"
+	"strings"
 
 	"verif/internal/core"
 	"verif/internal/flow"
@@ -82,6 +83,7 @@ func c06Basic(c *core.Ctx) {
 			derivers[d] = true
 		}
 	}
+	c06BasicProvenance(c, rule, f, matches)
 	good, bad := 0, 0
 	var badAt ast.Node
 	why := ""
@@ -155,5 +157,134 @@ func c06Basic(c *core.Ctx) {
 		c.Discharge(rule, cons, pos(c, at), "the credentials are separated at the first colon only")
 	default:
 		c.Undecide(rule, cons, pos(c, f.Body), "cannot find how the decoded credentials are separated into user and password (no strings.Cut/SplitN/Index/Split on \":\")")
+	}
+}
+
+// c06IsDecode reports whether call yields the decoded credentials: a base64 decoder method
+// or net/http's own Basic parser. The data flow is not followed beyond it.
+func c06IsDecode(f *flow.Func, call *ast.CallExpr) bool {
+	fnObj, ok := f.Callee(call).(*types.Func)
+	if !ok || fnObj.Pkg() == nil {
+		return false
+	}
+	if fnObj.Pkg().Path() == "encoding/base64" && strings.Contains(fnObj.Name(), "Decode") {
+		return true
+	}
+	return fnObj.FullName() == "(*net/http.Request).BasicAuth"
+}
+
+// c06BasicProvenance: the user and password handed to the credential lookup are pieces of
+// exactly the decoded credential string. Everything that flows into the two arguments of
+// Match, back to the decoder's result, passes only through conversions, slicing, the
+// separator search/split functions (judged by the split obligation) and same-package
+// helpers (followed); any string transformation on the way (trimming, case folding,
+// replacing, normalising, unescaping ...) makes different presented credentials equal.
+func c06BasicProvenance(c *core.Ctx, rule string, f *flow.Func, matches []*ast.CallExpr) {
+	cons := fname(c06val, "BasicAuthValidator", "Validate") + "|credentials compared are exactly the decoded bytes"
+	transformPkgs := func(p string) bool {
+		switch p {
+		case "strings", "bytes", "unicode", "net/url", "html", "regexp", "path", "path/filepath", "strconv":
+			return true
+		}
+		return strings.HasPrefix(p, "golang.org/x/text/") || strings.HasPrefix(p, "unicode/")
+	}
+	allowed := map[string]bool{"Cut": true, "SplitN": true, "Split": true, "SplitAfter": true, "SplitAfterN": true,
+		"Index": true, "IndexByte": true, "IndexRune": true, "IndexAny": true,
+		"LastIndex": true, "LastIndexByte": true, "LastIndexAny": true, "Join": true, "NewReader": true, "NewBufferString": true, "NewBuffer": true}
+	decoded := 0
+	var badAt, unknownAt ast.Node
+	badName, unknownName := "", ""
+	seenFn := map[*types.Func]bool{}
+	var examine func(g *flow.Func, roots []ast.Expr, depth int)
+	examine = func(g *flow.Func, roots []ast.Expr, depth int) {
+		stop := func(n ast.Node) bool {
+			call, ok := n.(*ast.CallExpr)
+			return ok && c06IsDecode(g, call)
+		}
+		for _, e := range c06ValueClosureStop(g, roots, stop) {
+			ast.Inspect(e, func(x ast.Node) bool {
+				call, ok := x.(*ast.CallExpr)
+				if !ok {
+					return true
+				}
+				if c06IsDecode(g, call) {
+					decoded++
+					return false
+				}
+				if tv, ok := g.Info.Types[call.Fun]; ok && tv.IsType() {
+					return true // conversion
+				}
+				switch o := g.Callee(call).(type) {
+				case *types.Builtin:
+					return true
+				case *types.Func:
+					if o.Pkg() == nil {
+						return true
+					}
+					pkgPath := o.Pkg().Path()
+					switch {
+					case (pkgPath == "strings" || pkgPath == "bytes") && allowed[o.Name()]:
+					case pkgPath == "bytes" || pkgPath == "strings":
+						if sigOf := o.Type().(*types.Signature); sigOf.Recv() != nil {
+							// methods of strings.Builder / bytes.Buffer / Reader: containers, not transformations
+							break
+						}
+						if badAt == nil {
+							badAt, badName = call, o.FullName()
+						}
+					case transformPkgs(pkgPath):
+						if badAt == nil {
+							badAt, badName = call, o.FullName()
+						}
+					case o.Pkg() == g.Pkg.Types:
+						if depth < 2 && !seenFn[o] {
+							seenFn[o] = true
+							if h := c06FuncDeclOf(c, o); h != nil {
+								c.Count("functions_analysed", 1)
+								var rets []ast.Expr
+								ast.Inspect(h.Body, func(y ast.Node) bool {
+									switch t := y.(type) {
+									case *ast.FuncLit:
+										return false
+									case *ast.ReturnStmt:
+										for _, r := range t.Results {
+											if tv, ok := h.Info.Types[r]; ok && tv.Type != nil && !isErrorTypeC06(tv.Type) && !tv.IsNil() {
+												rets = append(rets, r)
+											}
+										}
+									}
+									return true
+								})
+								examine(h, rets, depth+1)
+							}
+						}
+					default:
+						if unknownAt == nil {
+							unknownAt, unknownName = call, o.FullName()
+						}
+					}
+				default:
+					if unknownAt == nil {
+						unknownAt, unknownName = call, g.Render(call.Fun)
+					}
+				}
+				return true
+			})
+		}
+	}
+	var roots []ast.Expr
+	for _, m := range matches {
+		roots = append(roots, m.Args...)
+	}
+	examine(f, roots, 0)
+	switch {
+	case badAt != nil:
+		c.Violate(rule, cons, pos(c, badAt), "between decoding the Authorization header and the credential lookup the user/password pass through "+badName+": presented credentials that differ from a configured user's (extra or different characters the transformation removes or folds) are accepted, and a configured user whose name or password contains such characters can never log in")
+	case decoded == 0:
+		c.Undecide(rule, cons, pos(c, f.Body), "cannot trace the arguments of the credential lookup back to a base64 decoder (or Request.BasicAuth)")
+	case unknownAt != nil:
+		c.Undecide(rule, cons, pos(c, unknownAt), "the user/password pass through "+unknownName+", which is not known to preserve them")
+	default:
+		c.Discharge(rule, cons, pos(c, matches[0]), "user and password reach the lookup from the decoder through conversions, slicing and the separator split only")
 	}
 }
